@@ -35,7 +35,7 @@ func genParseStreams(c *Ctx, add func(stream string, doc []byte), scale int) {
 
 func checkC01(c *Ctx) {
 	r := c.Rng
-	c.Ev.Coverage.Rule = "accept/reject of Parse in 4 configurations (AVX2/AVX-512 x copy/no-copy) vs the Coq-extracted model and vs the Coq-extracted RFC 8259 recogniser spec_parse (only in-claim inputs compared against the spec). Streams: G1 grammar-directed valid documents with random JSON white space; G2 byte substitution/insertion/deletion/truncation at token boundaries; G3 exhaustive number lexemes over {0,1,9,-,+,.,e,E} up to length 5 (6 thorough) as array element and object value; G4 each atom with every byte in every position and as follower; G5 escapes and raw bytes in strings; G6 exhaustive token sequences over [ ] { } , : \"k\" 1 true up to length 5 (6 thorough); G7 positional sweep over block (64 B), index-buffer (1408 entries) and sync/async (8 KiB) boundaries; G8 documents above 8 KiB with a missing/extra bracket only; G9 a full index buffer ending on a carried index followed by a structural-free tail; G10 a raw control character inside a string of the first / a middle index buffer of a multi-buffer message; G11 long strings after others; G12 big objects truncated inside a member; G13 every kind of value (and escapes) laid across the block boundary at which a full index buffer is handed over, cut at every byte. non-trivial = compared against model or in-claim spec verdict; distinct = by input bytes"
+	c.Ev.Coverage.Rule = "accept/reject of Parse in 4 configurations (AVX2/AVX-512 x copy/no-copy) vs the Coq-extracted model and vs the Coq-extracted RFC 8259 recogniser spec_parse (only in-claim inputs compared against the spec). Streams: G1 grammar-directed valid documents with random JSON white space; G2 byte substitution/insertion/deletion/truncation at token boundaries; G3 exhaustive number lexemes over {0,1,9,-,+,.,e,E} up to length 5 (6 thorough) as array element and object value; G4 each atom with every byte in every position and as follower; G5 escapes and raw bytes in strings; G6 exhaustive token sequences over [ ] { } , : \"k\" 1 true up to length 5 (6 thorough); G7 positional sweep over block (64 B), index-buffer (1408 entries) and sync/async (8 KiB) boundaries; G8 documents above 8 KiB with a missing/extra bracket only; G9 a full index buffer ending on a carried index followed by a structural-free tail; G10 a raw control character inside a string of the first / a middle index buffer of a multi-buffer message; G11 long strings after others; G12 big objects truncated inside a member; G13 every kind of value (and escapes) laid across the block boundary at which a full index buffer is handed over, cut at every byte; G14 every escape kind (incl. surrogate pairs) at every offset of the 32-byte string windows. non-trivial = compared against model or in-claim spec verdict; distinct = by input bytes"
 	flags := ChkVerdict | ChkModel | ChkKernels | ChkCopyModes | ChkNoPanic
 	var batch []PCase
 	flush := func() {
@@ -189,6 +189,11 @@ func checkC01(c *Ctx) {
 		for _, d := range es {
 			add("G10-control-char-in-early-buffer", d)
 		}
+	}
+	// G14 every escape kind with its backslash at every offset of the 32-byte windows the
+	// string kernels walk (a valid string must not be rejected for where its escape falls)
+	for _, d := range escapeOffsetDocs(r, c.Thorough()) {
+		add("G14-escape-at-every-window-offset", d)
 	}
 	// G13 every kind of value laid across the block boundary at which a full index buffer is
 	// handed over (cut at every byte), and escapes straddling it
